@@ -462,6 +462,17 @@ func runC15(c *Ctx) error {
 			fail("packet with AT_MAC does not encode", cs, "ok", "err", "")
 			continue
 		}
+		// the oracle of this runner is tied to the specification the theorems are about (Spec/AkaMac.v, extracted)
+		if i%5 == 0 {
+			zw0, _ := zeroMac(wire)
+			sp, err := c.M.Ask(fmt.Sprintf("(spec_at_mac %s %s)", hx(wire), hx(key)))
+			if err != nil {
+				return err
+			}
+			if exp := L(Hx(zw0), Hx(refMac(key, wire))).String(); sp != exp {
+				r.Add(Finding{Kind: "correspondence", What: "the runner's reference MAC differs from Spec.AkaMac.at_mac_spec", Case: fmt.Sprintf("(spec_at_mac %s %s)", hx(wire), hx(key)), Expected: sp, Observed: exp})
+			}
+		}
 		if want := refMac(key, wire); !bytes.Equal(want, mac) {
 			fail("code is not the first 16 octets of HMAC-SHA-256 over the wire form with AT_MAC zeroed", cs, hx(want), hx(mac), "")
 		}
